@@ -36,6 +36,45 @@ def mon_dmc(args):
     return None
 
 
+def g_ctx(rng):
+    from explorerscript.source_map import SourceMapBuilder
+    from explorerscript.ssb_converting.compiler.utils import CompilerCtx, Counter
+
+    c = CompilerCtx(Counter(), SourceMapBuilder(), {}, Counter(), "n/a", {})
+    c._loops = [object() for _ in range(rng.randint(0, 3))]
+    c._switch_cases = [object() for _ in range(rng.randint(0, 3))]
+    return c
+
+
+def mon_stack(field, add):
+    def monitor(args):
+        c = args["self"]
+        before = list(getattr(c, field))
+        other = "_switch_cases" if field == "_loops" else "_loops"
+        other_before = list(getattr(c, other))
+        if add:
+            h = args.get("h", object())
+            getattr(c, "add_loop" if field == "_loops" else "add_switch_case")(h)
+            now = getattr(c, field)
+            if len(now) != len(before) + 1 or now[-1] is not h or any(a is not b for a, b in zip(now, before)):
+                return f"{field}: the handler is not pushed on top of the unchanged stack"
+        else:
+            try:
+                getattr(c, "remove_loop" if field == "_loops" else "remove_switch_case")()
+            except IndexError:
+                return None if not before else "IndexError although the stack is not empty"
+            if not before:
+                return "no IndexError on an empty stack"
+            now = getattr(c, field)
+            if len(now) != len(before) - 1 or any(a is not b for a, b in zip(now, before)):
+                return f"{field}: not exactly the top entry was removed"
+        if list(getattr(c, other)) != other_before:
+            return f"{other} was touched"
+        return None
+
+    return monitor
+
+
 def g_routines(rng):
     rs = []
     off = rng.randint(0, 3)
@@ -74,6 +113,10 @@ def rep(args):
 
 
 NATIVE = {
+    U + ":CompilerCtx.add_loop": {"gen": lambda r: {"self": g_ctx(r), "h": object()}, "monitor": mon_stack("_loops", True), "repr": lambda a: repr((len(a["self"]._loops), len(a["self"]._switch_cases)))},
+    U + ":CompilerCtx.remove_loop": {"gen": lambda r: {"self": g_ctx(r)}, "monitor": mon_stack("_loops", False), "repr": lambda a: repr((len(a["self"]._loops), len(a["self"]._switch_cases)))},
+    U + ":CompilerCtx.add_switch_case": {"gen": lambda r: {"self": g_ctx(r), "h": object()}, "monitor": mon_stack("_switch_cases", True), "repr": lambda a: repr((len(a["self"]._loops), len(a["self"]._switch_cases)))},
+    U + ":CompilerCtx.remove_switch_case": {"gen": lambda r: {"self": g_ctx(r)}, "monitor": mon_stack("_switch_cases", False), "repr": lambda a: repr((len(a["self"]._loops), len(a["self"]._switch_cases)))},
     U + ":does_op_end_control_flow": {"gen": lambda r: {"op": _op(r), "previous_op": r.choice([None, _op(r), SsbOperation(0, SsbOpCode(-1, r.choice(OPS_CTX)), [])])}, "monitor": mon_ends, "repr": rep},
     DT + ":DungeonModeConstants.get_explorerscript_constant_for": {"gen": lambda r: {"self": DungeonModeConstants("C", "O", "R", "OR"), "idx": r.randint(-6, 8)}, "monitor": mon_dmc, "repr": rep},
     U + ":routine_op_offsets_are_ordered": {"gen": lambda r: {"routine_ops": g_routines(r)}, "monitor": mon_ordered, "repr": rep},
